@@ -471,4 +471,110 @@ theorem C16_code_read_from_parser (create : FactoryObj → CpT → Except Target
     | none => rfl
     | some f => simp only [andThen]; cases create f cp <;> rfl
 
+/-! ## Code tie: `Reference_Data.get` (regenerated from the source): `[Species]` entries override the built-in element table property by property -/
+namespace RefTie
+open Atsim.Gen.Logic
+
+/-- a property of a species as the reference data answer it: the `[Species]` value when there is one, else the built-in table's -/
+def refSpec (tbl : List (String × ElData)) (asDict : ElData → List (String × RefVal)) (extra : List (String × List (String × RefVal))) (sp prop : String) :
+    Except RefErr RefVal :=
+  match lookupLast tbl sp, lookupLast extra sp with
+  | none, none => .error .unknownSpecies
+  | none, some e => (match lookupLast e prop with | some v => .ok v | none => .error .unknownProperty)
+  | some b, x =>
+    match (match (x.getD []) |> fun e => lookupLast e prop with
+           | some v => some v
+           | none => lookupLast (asDict b) prop) with
+    | some v => .ok v
+    | none => .error .unknownProperty
+
+section dict
+variable {β : Type}
+
+theorem lookupLast_append_single (d : List (String × β)) (k : String) (v : β) (s : String) :
+    lookupLast (d ++ [(k, v)]) s = if s = k then some v else lookupLast d s := by
+  simp only [lookupLast, List.reverse_append, List.reverse_cons, List.reverse_nil, List.nil_append, List.singleton_append, List.find?_cons]
+  by_cases h : s = k
+  · subst h; simp
+  · have : (k == s) = false := by simp [Ne.symm h]
+    simp [this, h]
+
+theorem find_map_set (k : String) (v : β) (s : String) (l : List (String × β)) :
+    ((l.map (fun e => if e.1 == k then (k, v) else e)).find? (fun e => e.1 == s)).map (·.2)
+      = if s = k then (l.find? (fun e => e.1 == s)).map (fun _ => v) else (l.find? (fun e => e.1 == s)).map (·.2) := by
+  induction l with
+  | nil => simp
+  | cons e l ih =>
+    simp only [List.map_cons, List.find?_cons]
+    by_cases h1 : e.1 = k <;> by_cases h2 : s = k
+    · subst h2; simp [h1]
+    · have : (k == s) = false := by simp [Ne.symm h2]
+      have h3 : (e.1 == s) = false := by simp [h1, Ne.symm h2]
+      simpa [h1, this, h3, h2] using ih
+    · subst h2
+      have h3 : (e.1 == s) = false := by simp [h1]
+      simpa [h3] using ih
+    · have h3 : (e.1 == k) = false := by simp [h1]
+      simp only [h3, Bool.false_eq_true, if_false]
+      cases h4 : (e.1 == s)
+      · simpa [h2] using ih
+      · simp [h2]
+
+theorem lookupLast_odictSet (d : List (String × β)) (k : String) (v : β) (s : String) :
+    lookupLast (odictSet d k v) s = if s = k then some v else lookupLast d s := by
+  unfold odictSet
+  split
+  · rename_i hany
+    simp only [lookupLast, ← List.map_reverse, find_map_set]
+    split
+    · rename_i hs
+      subst hs
+      have : ∃ e, d.reverse.find? (fun e => e.1 == s) = some e := by
+        rw [← Option.isSome_iff_exists, List.find?_isSome]
+        simpa using hany
+      obtain ⟨e, he⟩ := this
+      simp [he]
+    · rfl
+  · exact lookupLast_append_single d k v s
+
+/-- `dict.update`: a look-up in the updated dictionary is the look-up in the update when it has the key, else in the original -/
+theorem lookupLast_odictUpdate (d o : List (String × β)) (s : String) :
+    lookupLast (odictUpdate d o) s = (match lookupLast o s with | some v => some v | none => lookupLast d s) := by
+  unfold odictUpdate
+  rw [← List.reverse_reverse o]
+  generalize o.reverse = r
+  induction r with
+  | nil => simp [lookupLast]
+  | cons e r ih =>
+    obtain ⟨k, v⟩ := e
+    rw [List.reverse_cons, List.foldl_append, List.foldl_cons, List.foldl_nil, lookupLast_odictSet, ih, lookupLast_append_single]
+    by_cases h : s = k <;> simp [h]
+
+end dict
+
+end RefTie
+
+open Atsim.Gen.Logic RefTie in
+/-- **code tie**: `Reference_Data.get` as regenerated is `refSpec`: an unknown label (neither an element nor described in `[Species]`) and a property that neither source
+gives are the two declared errors (which the EAM builder turns into defaults or configuration errors: `C12_code_eam_builder`); the internal `AttributeError` branch the
+translation carries for a `None` it cannot rule out is unreachable -/
+theorem C16_code_reference_get (tbl : List (String × ElData)) (asDict : ElData → List (String × RefVal)) (extra : List (String × List (String × RefVal)))
+    (sp prop : String) :
+    reference_get tbl asDict extra sp prop = refSpec tbl asDict extra sp prop := by
+  unfold reference_get refSpec
+  cases h1 : lookupLast tbl sp with
+  | none =>
+    cases h2 : lookupLast extra sp with
+    | none => rfl
+    | some e => simp only []; cases lookupLast e prop <;> rfl
+  | some b =>
+    simp only [lookupLast_odictUpdate]
+    cases h2 : lookupLast extra sp with
+    | none =>
+      simp only [Option.getD_none]
+      cases lookupLast ([] : List (String × RefVal)) prop <;> cases lookupLast (asDict b) prop <;> rfl
+    | some e =>
+      simp only [Option.getD_some]
+      cases lookupLast e prop <;> cases lookupLast (asDict b) prop <;> rfl
+
 end Atsim.C16
